@@ -1072,25 +1072,25 @@ func (tr *Trans) rejectAt(fr *Frame, format string, pos token.Pos) {
 
 // zeroLaterLocals binds the locals of fr's function that are declared after pos to their zero values.
 func (tr *Trans) zeroLaterLocals(sc *Scope, fr *Frame, pos token.Pos) {
-	for name, refs := range tr.localVar {
-		if _, ok := sc.vars[name]; ok {
-			continue
-		}
-		var best *localRef
-		for _, r := range refs {
-			if r.frame != fr || r.pos <= pos {
+	// every named local of the function, whether or not its declaration has been translated yet
+	for _, b := range fr.fn.Blocks {
+		for _, ins := range b.Instrs {
+			al, ok := ins.(*ssa.Alloc)
+			if !ok || al.Comment == "" || strings.ContainsAny(al.Comment, "$.") || !al.Pos().IsValid() || al.Pos() <= pos {
 				continue
 			}
-			if best == nil || r.pos < best.pos {
-				best = r
+			if _, ok := sc.vars[al.Comment]; ok {
+				continue
 			}
+			t := al.Type().(*types.Pointer).Elem()
+			if _, isStruct := t.Underlying().(*types.Struct); isStruct && (al.Heap || tr.eng.isOpaque(t)) {
+				// a struct variable that lives on the heap: the name denotes a pointer to it (nil before its declaration)
+				sc.vars[al.Comment] = TExpr{E: "0", Sort: "Int", GoT: al.Type()}
+				continue
+			}
+			si := tr.sortOf(t)
+			sc.vars[al.Comment] = TExpr{E: si.Zero, Sort: si.Sort, GoT: t}
 		}
-		if best == nil {
-			continue
-		}
-		t := best.addr.valueType()
-		si := tr.sortOf(t)
-		sc.vars[name] = TExpr{E: si.Zero, Sort: si.Sort, GoT: t}
 	}
 }
 
